@@ -5,7 +5,7 @@ import "verif/harness/internal/crash"
 
 func init() {
 	crash.Register(crash.Oracle{ID: "C11", SyncModes: []bool{true, false}, Maint: true},
-		"same crash enumeration as C10; after recovery the verifier dumps all keys (Get + iterator), runs maintenance (rotate+flush, L0->ingest move, ingest drain, forced rewrite of every sealed value-log segment, RunValueLogGC, close/reopen) and dumps again; "+
+		"same crash enumeration as C10; after recovery the verifier dumps all keys (Get + iterator), runs maintenance (rotate+flush, L0->ingest move, ingest drain, forced rewrite of every sealed value-log segment, RunValueLogGC, close/reopen) and dumps again; every third crash point instead crashes a second time: the crash image is reopened on a counting FaultFS, dumped as soon as Open returns, left to recovery's own background flushes / compactions and SIGKILLed at a seeded durable file operation (or once the flush queue is empty), never closed, then reopened and dumped again; "+
 			"oracle: second dump == first dump; distinct = (workload, stratum, crash-before-completion) triples with a real kill",
 		"maintenance sequences are ordered so that the recorded ingest-buffer same-version-tie finding (C01) cannot be the cause of a change")
 }
